@@ -18,9 +18,11 @@ CONSTANTS Ext,        \* enabled extensions, subset of AllExt
 AllExt == {"MODIFIERS", "ALIAS", "ADVANCED_UNITS", "MODES", "INLINE", "RANGE", "TIMER_REQ", "INTERMEDIATE"}
 
 (* ---- vocabulary ------------------------------------------------------------ *)
-Fold(n) == CASE n = "A" -> "a" [] n = "B" -> "b" [] n = "Salt" -> "salt" [] n = "Pan" -> "pan" [] OTHER -> n
+Fold(n) == CASE n = "A" -> "a" [] n = "B" -> "b" [] n = "Salt" -> "salt" [] n = "Pan" -> "pan"
+             [] n = "crU2me" -> "crE2me"      \* U2 is the capital of E2: names are compared under full Unicode case folding
+             [] OTHER -> n
 UnitKindBundled(u) == CASE u \in {"g", "kg", "mg", "lb", "oz", "gram", "grams"} -> "mass"
-                        [] u \in {"ml", "l", "tsp", "tbsp", "cup", "cups", "litre", "L"} -> "volume"
+                        [] u \in {"ml", "l", "tsp", "tbsp", "cup", "cups", "litre", "L", "fl oz"} -> "volume"
                         [] u \in {"min", "h", "s", "minutes", "hour", "hours", "secs", "d"} -> "time"
                         [] u \in {"C", "F", "DEGC"} -> "temperature"
                         [] u \in {"cm", "m", "in"} -> "length"
